@@ -256,6 +256,8 @@ class FV:
         must have passed (and survived)?  -> (ok, detail)"""
         targets = self._targets(before)
         cands = []
+        matched = {}          # index of a disjunct of the wanted condition -> description of the raise that realises it
+        nparts = None
         for r, name in self.raises():
             if exc is not None and name not in exc:
                 continue
@@ -275,22 +277,29 @@ class FV:
                 want = self.ev.spec(cond_text, env=env, at=ifst)
             except AnalysisError:
                 continue
-            match = self.ctx.eq(cond, want)
-            if not match and allow_superset:
-                h = self.ctx.head_of(cond)
-                if h and h[0] == "or":
-                    wh = self.ctx.head_of(want)
-                    wparts = self.ctx.args_of(want) if wh and wh[0] == "or" else [want]
-                    cparts = self.ctx.args_of(cond)
-                    match = all(any(self.ctx.eq(w, c) for c in cparts) for w in wparts)
-            if not match:
+            wh = self.ctx.head_of(want)
+            wparts = list(self.ctx.args_of(want)) if wh and wh[0] == "or" else [want]
+            nparts = len(wparts) if nparts is None else nparts
+            ch = self.ctx.head_of(cond)
+            cparts = list(self.ctx.args_of(cond)) if ch and ch[0] == "or" else [cond]
+            # which disjuncts of the wanted condition does this raise cover?  (a guard may test several at once with `or`,
+            # or the disjuncts may be spread over consecutive guards - the canonical form splits `or` guards)
+            covers = [j for j, w in enumerate(wparts) if any(self.ctx.eq(w, c) for c in cparts)]
+            exact = self.ctx.eq(cond, want)
+            if not exact and (not covers or (not allow_superset and len(cparts) > 1)):
                 cands.append(f"line {r.lineno}: {self.show(cond)}")
                 continue
+            if exact:
+                covers = list(range(len(wparts)))
             tnode = self.cfg.node(ifst)
             label = "F" if pol else "T"
             if all(self._must_leave_by(tnode, label, t) for t in targets):
-                return True, f"raise {name} under `{self.src(ifst.test)}` (line {ifst.lineno}) precedes the effect on all paths"
-            cands.append(f"line {r.lineno}: condition matches but does not dominate the effect")
+                for j in covers:
+                    matched.setdefault(j, f"raise {name} under `{self.src(ifst.test)}` (line {ifst.lineno})")
+                if len(wparts) == nparts and len(matched) == nparts:
+                    return True, "; ".join(matched[j] for j in sorted(matched)) + " precedes the effect on all paths"
+            else:
+                cands.append(f"line {r.lineno}: condition matches but does not dominate the effect")
         return False, f"no `raise {'/'.join(exc or ('*',))}` under `{cond_text}` dominating the effect; candidates: {cands[:4]}"
 
     def _targets(self, before):
@@ -910,8 +919,28 @@ def if_stmt_of(v, testexpr):
     raise AnalysisError("internal: test expression without statement")
 
 
+def else_stmts(v, ifst):
+    """the alternative of `if c: ...`: its else-arm or, in guard-clause form (the body cannot fall through), the rest of
+    the block that follows it"""
+    if ifst.orelse:
+        return ifst.orelse
+    if not terminates(ifst.body):
+        return []
+    par = v.cfg.parent.get(id(ifst))
+    block = v.body if (par is None or par[0] is None) else getattr(par[0], par[1])
+    for i, st in enumerate(block):
+        if st is ifst:
+            return block[i + 1:]
+    return []
+
+
+def branch_stmts(v, ifst, positive=True):
+    """statements executed when the test of ifst is true (positive) / false - whichever way round the source nests them"""
+    return ifst.body if positive else else_stmts(v, ifst)
+
+
 def path_term(v, st):
-    """conjunction of the branch conditions under which statement st is reached"""
+    """conjunction of the branch conditions that enclose statement st (on the canonical form of the function)"""
     parts = []
     for test, pol in v.cfg.path_condition(st):
         t = v.ev.term(test, at=if_stmt_of(v, test))
@@ -919,3 +948,210 @@ def path_term(v, st):
     if not parts:
         return v.ctx.mk(("const", True))
     return v.ev._bool("and", parts)
+
+
+def context_literals(v, st):
+    """terms of the guards st has survived: tests that every path to st leaves by one edge although st is not nested in
+    that arm (`if bad: raise ...` earlier in the block, an early return, a `continue`).  Decided on the CFG."""
+    out = []
+    for test, pol, syntactic in v.cfg.must_literals(st):
+        if syntactic:
+            continue
+        t = v.ev.term(test, at=if_stmt_of(v, test))
+        out.append(t if pol else v.ev._not(t))
+    return out
+
+
+def context_term(v, st):
+    lits = context_literals(v, st)
+    if not lits:
+        return v.ctx.mk(("const", True))
+    return v.ev._bool("and", lits)
+
+
+def _true(v):
+    return v.ctx.mk(("const", True))
+
+
+def _is_true(v, t):
+    h = v.ctx.head_of(t)
+    return bool(h) and h[0] == "const" and h[1] is True
+
+
+def reached_iff(v, st, want, variables=(), pre=None, lo=0):
+    """Statement st is reached exactly under `want` - for inputs that get as far as st's block.  With own = the enclosing
+    branch conditions and ctx = the earlier guards st has survived:  own & ctx => want   and   want & ctx => own.
+    (`want` may, but need not, repeat the negations of earlier guards; a condition that is stronger or weaker than
+    documented fails one of the two implications.)  Invariant under nesting / un-nesting of alternatives."""
+    own = path_term(v, st)
+    if cond_equiv(v, own, want, variables, pre=pre, lo=lo):
+        return True
+    lits = context_literals(v, st)
+    if not lits:
+        return False
+    ctx = v.ev._bool("and", lits)
+    return cond_implies(v, v.ev._bool("and", [own, ctx]), want, variables, pre=pre, lo=lo) and \
+        cond_implies(v, v.ev._bool("and", [want, ctx]), own, variables, pre=pre, lo=lo)
+
+
+def reached_implies(v, st, want, variables=(), pre=None, lo=0):
+    """whenever st is reached, `want` holds (enclosing conditions and survived guards together)"""
+    own = path_term(v, st)
+    if cond_implies(v, own, want, variables, pre=pre, lo=lo):
+        return True
+    lits = context_literals(v, st)
+    return bool(lits) and cond_implies(v, v.ev._bool("and", [own] + lits), want, variables, pre=pre, lo=lo)
+
+
+def implies_reached(v, prem, st, variables=(), pre=None, lo=0):
+    """inputs satisfying `prem` that get as far as st's block do reach st"""
+    own = path_term(v, st)
+    if cond_implies(v, prem, own, variables, pre=pre, lo=lo):
+        return True
+    lits = context_literals(v, st)
+    return bool(lits) and cond_implies(v, v.ev._bool("and", [prem] + lits), own, variables, pre=pre, lo=lo)
+
+
+def reached_iff_any(v, sts, want, variables=(), pre=None, lo=0):
+    """`want` is covered exactly by a set of statements (e.g. several raises of one refusal): every chosen statement is
+    reached only under `want`, and `want` (with the guards all of them have survived) leads to one of them.
+    -> the list of statements that realise `want`, [] if it is not realised exactly"""
+    cand = [st for st in sts if reached_implies(v, st, want, variables, pre=pre, lo=lo)]
+    if not cand:
+        return []
+    if len(cand) == 1:
+        return cand if reached_iff(v, cand[0], want, variables, pre=pre, lo=lo) else []
+    lit_sets = [context_literals(v, st) for st in cand]
+    common = [l for l in lit_sets[0] if all(any(v.eq(l, m) for m in ls) for ls in lit_sets[1:])]
+    disj = v.ev._bool("or", [v.ev._bool("and", [path_term(v, st)] + ls) for st, ls in zip(cand, lit_sets)])
+    if cond_implies(v, v.ev._bool("and", [want] + common), disj, variables, pre=pre, lo=lo):
+        return cand
+    return []
+
+
+# ============================================================================ finite string domains (dispatch by extension / keyword)
+_OTHER = "\0other"
+
+
+def _str_consts(ctx, t):
+    """python list of the string constants of a str / tuple / list / set term, else None"""
+    h = ctx.head_of(t)
+    if not h:
+        return None
+    if h[0] == "str":
+        return [h[1]]
+    if h[0] in ("tuple", "list", "set"):
+        out = []
+        for x in ctx.args_of(t):
+            hx = ctx.head_of(x)
+            if not hx or hx[0] != "str":
+                return None
+            out.append(hx[1])
+        return out
+    return None
+
+
+def _eval_on_subject(ctx, t, subject, value):
+    """truth value of Boolean term t when `subject` (a term) equals the string `value`; sub-terms that do not mention the
+    subject evaluate to None (unknown) and are combined with Kleene logic"""
+    h = ctx.head_of(t)
+    if h is None:
+        return None
+    a = ctx.args_of(t)
+    if h[0] == "const" and isinstance(h[1], bool):
+        return h[1]
+    if h[0] == "not":
+        x = _eval_on_subject(ctx, a[0], subject, value)
+        return None if x is None else not x
+    if h[0] in ("and", "or"):
+        vals = [_eval_on_subject(ctx, x, subject, value) for x in a]
+        if h[0] == "and":
+            if any(x is False for x in vals):
+                return False
+            return True if all(x is True for x in vals) else None
+        if any(x is True for x in vals):
+            return True
+        return False if all(x is False for x in vals) else None
+    if h[0] == "cmp" and h[1] in ("eq", "ne", "in", "notin"):
+        l, r = a
+        if h[1] in ("eq", "ne"):
+            for x, y in ((l, r), (r, l)):
+                if ctx.eq(x, subject):
+                    cs = _str_consts(ctx, y)
+                    if cs is not None and len(cs) == 1 and ctx.head_of(y)[0] == "str":
+                        res = value == cs[0]
+                        return res if h[1] == "eq" else not res
+        else:
+            if ctx.eq(l, subject):
+                cs = _str_consts(ctx, r)
+                if cs is not None:
+                    res = value in cs
+                    return res if h[1] == "in" else not res
+    return None
+
+
+def subject_constants(ctx, terms, subject):
+    """all string constants the subject is compared with in the given Boolean terms"""
+    out = set()
+
+    def rec(t):
+        h = ctx.head_of(t)
+        if h is None:
+            return
+        a = ctx.args_of(t)
+        if h[0] == "cmp" and h[1] in ("eq", "ne", "in", "notin"):
+            for x, y in ((a[0], a[1]), (a[1], a[0])):
+                if ctx.eq(x, subject):
+                    cs = _str_consts(ctx, y)
+                    if cs:
+                        out.update(cs)
+        if h[0] in ("and", "or", "not"):
+            for x in a:
+                rec(x)
+    for t in terms:
+        rec(t)
+    return out
+
+
+def reach_values(v, st, subject, candidates):
+    """{c in candidates + OTHER : statement st is reached when subject == c}  (None for a value the conditions do not
+    decide).  The conditions are the enclosing branches and the survived guards of st; the subject is only ever compared
+    with string constants, so the finitely many candidates (and one value outside all of them) are exhaustive."""
+    lits = []
+    sa_ = subject.single_atom()
+    for test, pol, syn in v.cfg.must_literals(st):
+        t = v.ev.term(test, at=if_stmt_of(v, test))
+        if sa_ is not None and sa_ not in v.ctx.all_atoms(t) and not v.eq(t, subject):
+            continue          # a condition on something else (it does not restrict the subject)
+        lits.append(t if pol else v.ev._not(t))
+    out = {}
+    for c in list(candidates) + [_OTHER]:
+        vals = [_eval_on_subject(v.ctx, t, subject, c) for t in lits if not _is_true(v, t)]
+        if any(x is False for x in vals):
+            out[c] = False
+        elif all(x is True for x in vals):
+            out[c] = True
+        else:
+            out[c] = None
+    return out
+
+
+def values_reaching(v, st, subject, among=None):
+    """set of string values of `subject` under which st is reached (OTHER stands for any value the code never mentions);
+    None if the conditions on the way to st do not decide some candidate.  Candidates: every constant the subject is compared
+    with anywhere in the function (or `among`)."""
+    if among is None:
+        conds = []
+        for s2 in v.stmts():
+            if isinstance(s2, (ast.If, ast.While)):
+                conds.append(v.ev.term(s2.test, at=s2))
+        among = sorted(subject_constants(v.ctx, conds, subject))
+    rv = reach_values(v, st, subject, among)
+    if any(x is None for x in rv.values()):
+        return None
+    return {c for c, x in rv.items() if x}
+
+
+def full_term(v, st):
+    """enclosing branch conditions and survived guards of st together (invariant under nesting / un-nesting)"""
+    return v.ev._bool("and", [path_term(v, st)] + context_literals(v, st))
